@@ -189,6 +189,8 @@ FAULTS = {
     "ctxcancel": {"do": "ctxcancel"},
     "carfail": {"do": "carfail"},
     "stop": {"do": "stop"},
+    "srvgone": {"do": "srvgone"},
+    "gstop+stop": {"do": "gstop"},
 }
 
 
@@ -205,27 +207,31 @@ def canonical_workloads():
     wl.append(("bidi-big-up", [rpc_script(1, "bidi", [big, 5], [3], split=True)]))
     wl.append(("bidi-big-down", [rpc_script(1, "bidi", [5], [big, 3], split=True)]))
     wl.append(("two", [rpc_script(1, "bidi", [mid], [mid], split=True), rpc_script(2, "unary_invoke", [12], resp=3)]))
+    wl.append(("cstream-many", [rpc_script(1, "cstream", [3, 4, 5, 6], [7])]))
+    wl.append(("sstream-many", [rpc_script(1, "sstream", [3], [4, 5, 6, 7])]))
     return wl
 
 
-def fam_life(seed, maxk, causes=("close", "ctxcancel", "carfail", "stop"), policies=("eager", "lazy"),
-             dirs=("fwd", "rev"), fcs=("fc",), workloads=None):
+def fam_life(seed, maxk, causes=("close", "ctxcancel", "carfail", "stop", "srvgone", "gstop+stop"),
+             policies=("eager", "lazy", "slowsrv", "slowcli"), dirs=("fwd", "rev"), fcs=("fc", "nofc"), workloads=None):
     """every termination cause at every step k of canonical workloads"""
     out = []
     for wname, rpcs in (workloads or canonical_workloads()):
         for cname, cfg in cfgs(dirs, fcs):
             for pol in policies:
                 for cause in causes:
-                    if cause == "stop" and cfg["dir"] != "rev":
+                    if cause in ("stop", "gstop+stop") and cfg["dir"] != "rev":
                         continue
                     p = {"kind": pol, "seed": seed, "max": 600, "allK": True, "maxK": maxk,
                          "faults": [{"at": 0, "step": FAULTS[cause]}]}
+                    if cause == "gstop+stop":
+                        p["faults"].append({"at": -1, "step": {"do": "stop"}})
                     out.append(scenario("life-%s-%s-%s-%s" % (wname, cname, pol, cause), cfg, copy.deepcopy(rpcs), p,
                                         meta={"family": "life", "cause": cause}))
     return out
 
 
-def fam_cancel(seed, maxk, policies=("eager", "lazy"), dirs=("fwd", "rev"), fcs=("fc",), deadline=True):
+def fam_cancel(seed, maxk, policies=("eager", "lazy", "slowsrv", "slowcli"), dirs=("fwd", "rev"), fcs=("fc", "nofc"), deadline=True):
     """cancel / deadline of one RPC at every step k, with a bystander"""
     out = []
     for wname, rpcs in canonical_workloads():
@@ -270,6 +276,18 @@ def fam_indep(seed, maxk, dirs=("fwd", "rev"), policies=("eager", "lazy", "rando
         "bad-hdr": rpc_script(5, "bidi", [3], [4], hdrs=["bin"]),
         "bad-trl": rpc_script(5, "bidi", [3], [4], trls=["bin"]),
     }
+    # a disturber whose handler is blocked sending to a caller that never reads,
+    # cancelled at every step
+    blocked = {"rpc": 5, "c": {"m": [op("new", shape="bidi"), op("send", n=3)]},
+               "s": {"m": [op("send", n=payload_for_wire(CH)) for _ in range(6)] + [op("ret", code=0)]}}
+    for cname, cfg in cfgs(dirs, ("fc",)):
+        for pol in ("eager", "slowcli"):
+            by = [rpc_script(1, "bidi", [mid, 5], [mid, 6], hdrs=["h1"], trls=["t1"], split=True),
+                  rpc_script(2, "unary_invoke", [12], resp=3)]
+            p = {"kind": pol, "seed": seed, "max": 800, "allK": True, "maxK": maxk or 10,
+                 "faults": [{"at": 0, "step": {"do": "cancel", "rpc": 5}}]}
+            out.append(scenario("indep-blocked-cancel-%s-%s" % (cname, pol), cfg, by + [copy.deepcopy(blocked)], p,
+                                meta={"family": "indep", "disturber": "blocked-cancel", "done": [1, 2]}))
     for dname, drpc in disturbers.items():
         for cname, cfg in cfgs(dirs, ("fc",)):
             for pol in policies:
@@ -360,6 +378,7 @@ def fam_meta(seed, n, dirs=("fwd", "rev"), gated=True):
             rs = {"rpc": 1, "c": {"m": [new] + csend + [op("half")], "a": creads},
                   "s": {"m": [op("recv") for _ in range(nsr)] + hops + [ret]}}
         pol = {"kind": rng.choice(["random", "eager", "lazy"]), "seed": rng.randrange(1 << 30), "max": 400}
+        cfg = dict(cfg, tunnelMD={"authorization": ["Bearer tunnel-secret"], "k1": ["tunnel"]})
         out.append(scenario("meta-%s-%d" % (cname, i), cfg, [rs, rpc_script(2, "unary_invoke", [3], resp=2)], pol,
                             meta={"family": "meta", "done": [1, 2]}))
     # call options without any outgoing metadata (per-RPC credentials alone)
@@ -367,8 +386,9 @@ def fam_meta(seed, n, dirs=("fwd", "rev"), gated=True):
         for shape in ("unary_invoke", "bidi"):
             for opts in (["creds", "nomd"], ["nomd"], ["creds", "nomd", "hdr", "trl", "peer", "chan"]):
                 rs = rpc_script(1, shape, [5], [4] if shape == "bidi" else [], opts=opts, hdrs=["h1"], trls=["t1"])
-                out.append(scenario("meta-nomd-%s-%s-%s" % (cname, shape, "+".join(opts)), cfg, [rs],
-                                    {"kind": "eager", "seed": seed, "max": 200}, meta={"family": "meta", "done": [1] if "creds" in opts else []}))
+                c2 = dict(cfg, tunnelMD={"authorization": ["Bearer tunnel-secret"]})
+                out.append(scenario("meta-nomd-%s-%s-%s" % (cname, shape, "+".join(opts)), c2, [rs],
+                                    {"kind": "eager", "seed": seed, "max": 200}, meta={"family": "meta", "done": [1]}))
     # binary metadata values that are not valid UTF-8 (legal under "-bin" keys)
     for cname, cfg in cfgs(dirs, ("fc",)):
         for where in ("md", "hdrs", "trls"):
@@ -403,4 +423,40 @@ def fam_meta(seed, n, dirs=("fwd", "rev"), gated=True):
                     ]
                     out.append({"name": "meta-gated-%s-%s-%s" % (cname, point, shape), "cfg": c, "steps": steps,
                                 "meta": {"family": "meta-gated"}})
+    return out
+
+
+GATES = [
+    "cli.alloc", "cli.new.sent", "cli.watch.fired", "cli.credit", "cli.close.teardown",
+    "cli.cancel.finished", "cli.cancel.rcvcancelled", "cli.cancel.emit",
+    "cli.finish.cas", "cli.finish.removed", "cli.finish.rcvclosed",
+    "srv.reject.emit", "srv.create.checked", "srv.credit", "srv.watch.fired", "srv.watch.cancelled",
+    "srv.finish.cancelled", "srv.finish.removed", "srv.finish.halfclosed", "srv.close.emit", "srv.close.mid",
+    "car.sent.c2s.new", "car.sent.c2s.msg", "car.sent.c2s.more", "car.sent.c2s.half", "car.sent.c2s.cancel", "car.sent.c2s.wu",
+    "car.sent.s2c.hdr", "car.sent.s2c.msg", "car.sent.s2c.more", "car.sent.s2c.close", "car.sent.s2c.wu",
+]
+
+
+def fam_gates(seed, maxk, gates=None, dirs=("fwd", "rev"), faults=("none", "cancel", "close"), policies=("eager",)):
+    """hold the first goroutine that reaches a yield point (inside the library, or
+    inside the carrier after a frame is on the wire) while everything else runs as
+    far as it can, then release it: every multi-step procedure is observed in its
+    intermediate states by the other goroutines"""
+    out = []
+    wls = canonical_workloads()
+    i = 0
+    for g in (gates or GATES):
+        for wname, rpcs in wls:
+            for pol in policies:
+                for fault in faults:
+                    d = dirs[i % len(dirs)]
+                    i += 1
+                    cfg = {"dir": d, "gates": [g]}
+                    p = {"kind": pol, "seed": seed, "max": 600}
+                    if fault == "cancel":
+                        p.update({"allK": True, "maxK": maxk or 6, "faults": [{"at": 0, "step": {"do": "cancel", "rpc": 1}}]})
+                    elif fault == "close":
+                        p.update({"allK": True, "maxK": maxk or 6, "faults": [{"at": 0, "step": {"do": "close"}}]})
+                    out.append(scenario("gate-%s-%s-%s-%s-%s" % (g, wname, d, pol, fault), cfg, copy.deepcopy(rpcs), p,
+                                        meta={"family": "gates", "gate": g, "done": [r["rpc"] for r in rpcs] if fault == "none" else []}))
     return out
